@@ -164,3 +164,52 @@ Lemma compare_ucs2_gt_all : forall a b, (0 <? go_compare_ucs2 a b) = spec_string
 Proof.
   intros a b. rewrite <- compare_ucs2_lt_all, (compare_ucs2_antisym a b). lia.
 Qed.
+
+(* ---- FoldBinaryOperator: integer operators ---------------------------------- *)
+From V Require Import C03.Tree C03.Fold.
+
+Definition spec_int_op (op : binop) (l r : num) : option Z :=
+  (* 6.1.6.1.9-6.1.6.1.11 Number::leftShift / signedRightShift / unsignedRightShift,
+     6.1.6.1.17 NumberBitwiseOp *)
+  let shift := spec_ToUint32 r mod 32 in
+  match op with
+  | BShl => let v := (spec_ToInt32 l * 2 ^ shift) mod 2 ^ 32 in Some (if 2 ^ 31 <=? v then v - 2 ^ 32 else v)
+  | BShr => Some (spec_ToInt32 l / 2 ^ shift)
+  | BUShr => Some (spec_ToUint32 l / 2 ^ shift)
+  | BBitAnd => Some (Z.land (spec_ToInt32 l) (spec_ToInt32 r))
+  | BBitOr => Some (Z.lor (spec_ToInt32 l) (spec_ToInt32 r))
+  | BBitXor => Some (Z.lxor (spec_ToInt32 l) (spec_ToInt32 r))
+  | _ => None
+  end.
+
+Lemma land31_is_mod32 u : 0 <= u -> Z.land u 31 = u mod 32.
+Proof. intros H. change 31 with (Z.ones 5). rewrite Z.land_ones by lia. reflexivity. Qed.
+
+Lemma spec_ToUint32_nonneg f : 0 <= spec_ToUint32 f.
+Proof.
+  destruct f as [| |s m e]; cbn [spec_ToUint32]; lia.
+Qed.
+
+Theorem fold_int_ops_is_spec_all :
+  forall (cvt : num -> Z) (op : binop) (l r : num),
+    (forall x, - two31 <= cvt x < two31) -> wf_num l -> wf_num r ->
+    forall z, spec_int_op op l r = Some z -> fold_num_num cvt op l r = FNum (num_of_Z z).
+Proof.
+  intros cvt op l r Hc Hl Hr z Hs.
+  unfold fold_num_num, go_ToUint32.
+  rewrite !to_int32_is_spec_all by assumption.
+  pose proof (to_uint32_is_spec_all cvt r Hc Hr) as Hur. unfold go_ToUint32 in Hur.
+  rewrite to_int32_is_spec_all in Hur by assumption.
+  pose proof (to_uint32_is_spec_all cvt l Hc Hl) as Hul. unfold go_ToUint32 in Hul.
+  rewrite to_int32_is_spec_all in Hul by assumption.
+  rewrite Hur, Hul.
+  pose proof (spec_ToUint32_nonneg r) as Hn.
+  destruct op; cbn [spec_int_op] in Hs; try discriminate; inversion Hs; subst z; clear Hs;
+    rewrite ?land31_is_mod32 by assumption; try reflexivity.
+  (* BShl: int32 << k wraps *)
+  unfold go_shl32, wrap32. cbv zeta.
+  change (Z.pow_pos 2 31) with two31. change (Z.pow_pos 2 32) with two32.
+  set (v := (spec_ToInt32 l * 2 ^ (spec_ToUint32 r mod 32)) mod two32).
+  do 2 f_equal. unfold two31 in *.
+  destruct (Z.ltb v _) eqn:E1; destruct (Z.leb _ v) eqn:E2; try reflexivity; lia.
+Qed.
